@@ -82,6 +82,15 @@ mod verif_kani {
         if let JsonValue::Number(n) = v { assert!(canon(&n) || matches!(n, NumberValue::Negative(_))); assert!(wf(&n)); } else { assert!(false); }
     }
 
+    // V1x (expected to FAIL on the pinned tree, known finding): From<f64> accepts EVERY double, so a non-finite arithmetic
+    // result becomes Float(inf/NaN) — not a well-formed number, and it prints as `inf` / `NaN`, which is not JSON
+    #[kani::proof]
+    fn v1x_from_f64_total() {
+        let f: f64 = kani::any();
+        let v: JsonValue = f.into();
+        if let JsonValue::Number(n) = v { assert!(wf(&n)); } else { assert!(false); }
+    }
+
     // V2a: cmp is reflexive and antisymmetric on all well-formed numbers
     #[kani::proof]
     fn v2_cmp_reflexive_antisymmetric() {
